@@ -542,6 +542,8 @@ def _case_effects(fn):
             return False if all(t is False for t in ts) else None
         if isinstance(e, ast.Constant):
             return bool(e.value)
+        if isinstance(e, ast.Call) and U(e.func) == 'bool' and e.args:
+            return truth(e.args[0], env)
         if isinstance(e, ast.Name) and e.id in env:
             c = env[e.id]
             if c in ('NONE', 'ZERO'):
@@ -637,8 +639,10 @@ def _case_effects(fn):
                         eff['mask'] = v.value
                     else:
                         tv = truth(v, env)
-                        if tv is None or not isinstance(
-                                v, (ast.Compare, ast.UnaryOp, ast.BoolOp)):
+                        if tv is None or not (isinstance(
+                                v, (ast.Compare, ast.UnaryOp, ast.BoolOp))
+                                or (isinstance(v, ast.Call)
+                                    and U(v.func) == 'bool')):
                             raise _Top('mask value `%s` not decided'
                                        % U(v)[:50])
                         eff['mask'] = tv
